@@ -27,6 +27,7 @@ Guard(e) ==
     [] e.a = "Quiesce"    -> QuiesceG
     [] e.a = "Stuck"      -> StuckG
     [] e.a = "EndBlocked" -> EndBlockedG(e.total)
+    [] e.a = "PBlocked"   -> PBlockedG
     [] OTHER -> FALSE
 
 Effect(e) ==
